@@ -53,8 +53,8 @@ def gen_cases(tier):
     """-> (placements {pid: pl}, cases [dict(line, pid, kind, feats, depth, stream)])"""
     rnd = lib.rng('C07')
     thorough = tier == 'thorough'
-    npl = 24 if thorough else 7
-    nq = 200 if thorough else 42
+    npl = 16 if thorough else 7
+    nq = 150 if thorough else 42
     nseed = 40 if thorough else 12
     nmal = 12 if thorough else 5
     nreg = 30 if thorough else 10
@@ -88,13 +88,17 @@ def gen_cases(tier):
             seeds += rnd.sample(G.OVERLAP_SEEDS, 2)
         if std:
             seeds += G.STDOBJ_SEEDS
+        # explain mode inlines every rewrite; in the std::Object family the tainted Object rewrite
+        # (with other types' policy filters inside) would then sit INSIDE a policy clause, which the
+        # marker-based atom recognition cannot name: that family runs without explain
+        opts_pool = [o for o in G.OPTS if 'E' not in o] if std else G.OPTS
         for q in seeds:
-            cases.append({'line': f'Q\t{pid}\t{rnd.choice(G.OPTS)}\t{q}', 'pid': pid, 'kind': 'Q',
+            cases.append({'line': f'Q\t{pid}\t{rnd.choice(opts_pool)}\t{q}', 'pid': pid, 'kind': 'Q',
                           'feats': ['seed'], 'depth': -1, 'stream': 'seed'})
         for _ in range(nq):
             d = rnd.choice((0, 1, 1, 2, 2, 2, 3, 3))
             q, feats = qg.query(d)
-            cases.append({'line': f'Q\t{pid}\t{rnd.choice(G.OPTS)}\t{q}', 'pid': pid, 'kind': 'Q',
+            cases.append({'line': f'Q\t{pid}\t{rnd.choice(opts_pool)}\t{q}', 'pid': pid, 'kind': 'Q',
                           'feats': feats, 'depth': d, 'stream': 'valid'})
         for _ in range(nmal):
             if rnd.random() < 0.5:
